@@ -12,7 +12,7 @@ CHECK = {
                   "touch the same subgrid (the touched set comes from the task's subgrid/neighbour fields, not from its "
                   "locks), and every step ends (deadlock/livelock/horizon are violations). Second part: the task tables the real "
                   "make_hydro_tasks/set_dependencies/reset_hydro_tasks build are dumped for every layout up to 3^3 (thorough 4^3) x 8 "
-                  "periodicities and checked (counter = incoming edges, locks = touched subgrids in index order and never twice, every "
+                  "periodicities and checked (counter = incoming edges, every touched subgrid is locked, none twice, every "
                   "face handled by exactly one gradient and one flux task, acyclic, stage order along data flow); a TAKE/STOP model "
                   "instantiated from them is searched exhaustively for 1-3 workers on all layouts with <= 2 subgrids (state-capped "
                   "beyond) for exclusivity, deadlock freedom and reachability of the end from every state, and each model transition "
